@@ -106,6 +106,10 @@ class Collector:
         self.evaluations += obs.n
         self.nt_enum += obs.nt_enum
         if obs.nt is not None:
+            try:
+                hash(obs.nt)
+            except TypeError:
+                obs.nt = _freeze(obs.nt)
             if len(self.nt) < MAX_NT:
                 self.nt.add(obs.nt)
             elif obs.nt not in self.nt:
@@ -171,6 +175,16 @@ class Collector:
 
 class _Fail(Exception):
     pass
+
+
+def _freeze(o):
+    if isinstance(o, (list, tuple)):
+        return tuple(_freeze(x) for x in o)
+    if isinstance(o, dict):
+        return tuple(sorted((k, _freeze(v)) for k, v in o.items()))
+    if isinstance(o, (set, frozenset, bytearray)):
+        return repr(o)
+    return o
 
 
 def hyp_settings(max_examples, stateful_steps=None):
@@ -284,7 +298,15 @@ def _run_job(args):
     coll = Collector(prop, tier, seed)
     t0 = time.time()
     try:
-        _MOD.run_job(job, coll)
+        if job.get("kind") == "__regress__":
+            # saved minimal reproductions of defects found earlier: replayed on every run, bypassing the generators
+            for fn in job["files"]:
+                with open(fn) as f:
+                    body = codec.loads(f.read())
+                coll.check(body["case"], _MOD.run_case)
+            coll.notes["regression_cases_replayed"] = len(job["files"])
+        else:
+            _MOD.run_job(job, coll)
     except BaseException:
         return {"error": traceback.format_exc(), "job": job.get("name")}
     out = coll.export()
@@ -301,6 +323,11 @@ def run_property(modname, tier, seed, procs=None, limit_s=None):
     prop = mod.ID
     t0 = time.time()
     jobs = mod.jobs(tier, seed)
+    rdir = os.path.join(VERIF_DIR, "regressions", prop)
+    if os.path.isdir(rdir):
+        files = sorted(os.path.join(rdir, f) for f in os.listdir(rdir) if f.endswith(".json"))
+        if files:
+            jobs = [{"name": "regressions", "kind": "__regress__", "files": files}] + jobs
     procs = procs or min(16, max(1, len(jobs)), os.cpu_count() or 1)
     limit_s = limit_s or (900 if tier == "quick" else 7200)
     results = []
